@@ -32,6 +32,7 @@ class Clause:
         self.kind, self.tags, self.name, self.expr, self.src = kind, tags, name, expr, src
 
     def enabled(self, prop):
+        """is the clause part of the projection of the contract onto property `prop`?"""
         return prop is None or 'ALL' in self.tags or prop in self.tags or not self.tags
 
 
@@ -41,7 +42,7 @@ class Specs:
         self.loops = {}       # (cname, k) -> [Clause]
         self.ghost = {}       # (cname, where) -> [str]
         self.inline = set()
-        self.lift = {}
+        self.aliases = {}
 
 
 def _logical_lines(path):
@@ -71,6 +72,10 @@ def load(cdir):
             if not s or s.startswith('//'):
                 continue
             src = '%s:%d' % (os.path.basename(path), ln)
+            if s.startswith('@alias '):
+                toks = s.split()
+                sp.aliases[toks[1]] = toks[2:]
+                continue
             if s.startswith('@for '):
                 m = re.match(r'@for (\w+) in (.*)$', s)
                 var, insts = m.group(1), m.group(2).split()
@@ -128,7 +133,9 @@ def load(cdir):
                 if not m:
                     raise SystemExit('%s: cannot parse clause %r' % (src, text))
                 ckind, tagstr, expr = m.group(1), m.group(3) or '', m.group(4)
-                toks = tagstr.replace(',', ' ').split()
+                toks = []
+                for t in tagstr.replace(',', ' ').split():
+                    toks.extend(sp.aliases.get(t, [t]))
                 tags = [t for t in toks if re.match(r'^(C\d+|ALL)$', t)]
                 names = [t for t in toks if not re.match(r'^(C\d+|ALL)$', t)]
                 cl = Clause(ckind, tags, names[0] if names else '', expr, src)
